@@ -194,6 +194,8 @@ func ExpectedDirection(kind string) (base string, dir int, ok bool) {
 		return "TypeWidth", -1, true
 	case "minimum-added", "maximum-added", "minLength-added", "maxLength-added", "maxItems-added":
 		return "Constraint", +1, true
+	case "maximum+exclusive-added", "minimum+exclusive-added":
+		return "", 0, false // reported as a narrowing or as an added constraint; only the mirror relation is asserted
 	case "enum-value-removed":
 		return "EnumValue", -1, true
 	case "response-enum-value-added":
